@@ -209,6 +209,21 @@ def generate(tier, rng):
     R = 12
     ct = len(compress.compress_code(b'a' * R))
     yield nxt(comment(literal_run(15600) + b'a' * R), 'plain-fits-compressed-does-not', dest='none')
+    # sources whose length needs more than 16 bits but whose compressed form fits the code area (the header
+    # stores the length in two bytes: such a cart must be refused, never written with a wrapped length)
+    line = b'-- ' + b'a' * 62 + b'\n'
+    for nlines in ((993, 1008) if quick else (992, 993, 994, 1008, 1500, 1986)):
+        yield nxt(line * nlines, 'length-over-16-bits', dest='none' if nlines % 2 else 'random')
+    yield nxt(line * 990 + b'-- ' + b'a' * 57 + b'\n', 'length-65535', dest='none')
+    # the same destination path written twice in one process: an earlier cart with another label is written there
+    # first, then the file is replaced by the case's label picture (or removed) and the case's cart is written.
+    # What is observed is the second write: it must not depend on the history of the path.
+    for i, (pr, de) in enumerate([('random', 'cart'), ('cart', 'random'), ('ff', 'none'), ('random', 'zero'), ('none', 'random'),
+                                  ('cart', 'none')] if quick else
+                                 [(a, b) for a in ('none', 'random', 'cart', 'ff', 'zero') for b in ('none', 'random', 'cart', 'ff', 'zero')]):
+        c = nxt(lua_program(rng, rng.choice([0, 30, 400])), 'same-path-twice', dest=de)
+        c['prior'] = pr
+        yield c
     # all versions on one compressible and one plain program
     for v in (0, 1, 255) if quick else range(0, 256, 5):
         yield nxt(lua_program(rng, 300), 'versions', version=v)
@@ -343,6 +358,23 @@ def run_impl(case):
         written = b''.join(g.lua.to_lines())
         obs['text'] = lib.hx(written)
         fn = os.path.join(d, 'cart.p8.png')
+        if case.get('prior'):
+            # an earlier, different cart written to the same path over another label picture
+            lab0 = _label_rows(case['prior'], case['seed'] + 1)
+            if lab0 is not None:
+                with open(fn, 'wb') as fh:
+                    fh.write(pngref.write(160, 205, lab0))
+            g0 = Game.make_empty_game(version=8)
+            for s0, r0 in zip([g0.gfx, g0.map, g0.gff, g0.music, g0.sfx], _regions('ramp', case['seed'] + 1)):
+                s0._data[:] = r0
+            g0.lua = Lua.from_lines([b'-- prior cart\nx=1\n'], version=8)
+            try:
+                gfile.to_file(g0, fn)
+                gfile.from_file(fn)
+            except Exception as e:  # noqa
+                obs['prior_error'] = lib.exc_name(e)
+            if os.path.exists(fn):
+                os.remove(fn)
         lab = _label_rows(case['dest'], case['seed'])
         if lab is not None:
             with open(fn, 'wb') as fh:
@@ -439,6 +471,8 @@ def compare(case, obs, answers):
         return 'implementation timed out'
     if 'bad_lua' in obs or case.get('chain'):
         return None
+    if obs.get('prior_error'):
+        return 'the earlier write to the same path raised %s' % obs['prior_error']
     if case.get('stego'):
         exp = ['ERR ' + obs['stego_error']] if 'stego_error' in obs and 'out' not in obs else \
             ['OK ' + obs['out'], ('OK ' + obs['back']) if 'back' in obs else 'ERR ' + obs.get('stego_error', '?')]
@@ -510,6 +544,8 @@ def signature(case, obs):
     if isinstance(obs.get('png'), str):
         return 'C04/invalid-png'
     tag = case.get('tag', '').split('+')[0].split('-limit')[0]
+    if case.get('prior'):
+        return 'C04/roundtrip/same-path-twice'
     return 'C04/roundtrip/%s/version-%s' % (tag or 'cart', 'zero' if case['version'] == 0 else 'nonzero')
 
 
@@ -523,6 +559,8 @@ def describe(case, obs):
         return {'tag': case['tag'], 'stego': case['stego']}
     d = {'tag': case.get('tag'), 'code_len': len(lib.unhx(case['code'])), 'version': case['version'],
          'regions': case['regions'], 'dest': case['dest']}
+    if case.get('prior'):
+        d['prior'] = case['prior']
     if obs and not obs.get('timeout'):
         d['raised'] = obs.get('raised')
         d['png'] = obs.get('png')
